@@ -58,6 +58,9 @@ EXTRAS = [
     {"items": [{"kind": "var"}, {"kind": "wvar", "inputs": [0]}, {"kind": "tdist", "var": 1, "inputs": [0]}]},
     {"items": [{"kind": "var"}, {"kind": "value"}, {"kind": "wvar", "inputs": [0]}, {"kind": "tdist", "var": 2, "inputs": [1], "kw": True}, {"kind": "calc", "inputs": [3]}]},
     {"items": [{"kind": "var"}, {"kind": "value"}, {"kind": "calc", "inputs": [1]}, {"kind": "dist", "var": 0, "inputs": [2], "kw": True}]},
+    # mutable input values: `v = x.value; v[...] = ...; x.value = v` assigns the same object back
+    {"items": [{"kind": "value", "mutable": True}, {"kind": "calc", "inputs": [0]}, {"kind": "tcalc", "inputs": [1, 0]}]},
+    {"items": [{"kind": "var", "mutable": True}, {"kind": "wvar", "inputs": [0]}, {"kind": "value"}, {"kind": "dist", "var": 1, "inputs": [2]}]},
     # update_on_init False
     {"items": [{"kind": "value"}, {"kind": "calc", "inputs": [0], "update_on_init": False}, {"kind": "calc", "inputs": [1, 1], "update_on_init": False}]},
 ]
@@ -68,10 +71,10 @@ def units(tier, seed):
     if tier == "quick":
         # quick: all programs with <= 3 items; of the 4-item ones every 6th (the list is
         # sorted, so the stride cuts across all kind combinations); thorough runs all of
-        # them and the 5-item programs with one input
+        # them and every 500th of the 5-item programs with one input
         progs = [p for idx, p in enumerate(progs) if len(p["items"]) <= 3 or idx % 9 == 0]
     else:
-        progs = [p for idx, p in enumerate(progs) if len(p["items"]) <= 4 or sum(1 for it in p["items"] if it["kind"] in ("value", "var")) == 1 and idx % 5 == 0]
+        progs = [p for idx, p in enumerate(progs) if len(p["items"]) <= 4 or sum(1 for it in p["items"] if it["kind"] in ("value", "var")) == 1 and idx % 500 == 0]
     progs = EXTRAS + progs
     size = 12 if tier == "quick" else 40
     # interleave so that every unit gets a mix of small and large programs
@@ -119,6 +122,11 @@ class Machine:
             if it["kind"] in ("dist", "tdist"):
                 self.flags[i] = it.get("flag")
         self.keys = {1: jax.random.PRNGKey(1), 2: jax.random.PRNGKey(2)}
+        self.mutable_nodes = set()
+        for i, it in enumerate(self.items):
+            if it.get("mutable"):
+                o = b.objs[i]
+                self.mutable_nodes.add(id(o.value_node if isinstance(o, b.lsl.Var) else o))
 
     # -- item -> nodes ----------------------------------------------------------
     def item_nodes(self, i):
@@ -142,7 +150,7 @@ class Machine:
         # transient nodes compute outdated/value on the fly, so their raw _outdated (and
         # the transient _value) are unobservable and are normalised away
         ns = tuple(
-            (None, n._value) if isinstance(n, self.b.lsl.Value)
+            (None, programs.freeze(n._value)) if isinstance(n, self.b.lsl.Value)
             else (None, None) if isinstance(n, self.b.lsl.TransientNode)
             else (n._outdated, n._value)
             for n in self.nodes
@@ -161,7 +169,7 @@ class Machine:
             if o is not None:
                 n._outdated = o
             if not isinstance(n, self.b.lsl.TransientNode):
-                n._value = v
+                n._value = list(v) if id(n) in self.mutable_nodes else v
         self.inputs_ref = dict(s["inputs_ref"])
         self.dirty = dict(s["dirty"])
         self.seeds_ref = dict(s["seeds_ref"])
@@ -183,6 +191,10 @@ class Machine:
                         out.append(("set", i, a, "node"))
                 else:
                     out.append(("set", i, a, "node"))
+        for i in self.input_items:
+            if self.items[i].get("mutable"):
+                out.append(("set_inplace", i, 0))
+                out.append(("set_inplace", i, 1))
         out.append(("auto", not s["auto"]))
         out.append(("update",))
         tnames = []
@@ -207,14 +219,25 @@ class Machine:
         b.calls.clear()
         kind = op[0]
         dirty_before = dict(self.dirty)
-        if kind == "set":
+        if kind == "set_inplace":
+            # v = x.value; edit v in place; x.value = v  (the SAME object is assigned back)
+            _, i, a = op
+            for c in self.caching:
+                if i in self.anc_inputs[c]:
+                    dirty_before[c] = True
+            self.inputs_ref[i] = b.val(a)
+            o = b.objs[i]
+            v = o.value
+            v[1] = a
+            o.value = v
+        elif kind == "set":
             _, i, a, via = op
-            v = b.val(a)
+            v = list(b.val(a)) if self.items[i].get("mutable") else b.val(a)
             # reference: every caching descendant becomes dirty
             for c in self.caching:
                 if i in self.anc_inputs[c]:
                     dirty_before[c] = True
-            self.inputs_ref[i] = v
+            self.inputs_ref[i] = b.val(a)
             o = b.objs[i]
             if via == "var":
                 o.value = v
@@ -274,7 +297,7 @@ class Machine:
                 o = n.outdated
                 outd.append(o)
                 if not o:
-                    val = n.value
+                    val = programs.freeze(n.value)
                     if val != ref[i]:
                         problems.append(("O1-stale", f"node {n.name} reports up-to-date but holds {val} != from-scratch {ref[i]}"))
         tot = {"_model_log_prob": programs.Sym(), "_model_log_lik": programs.Sym(), "_model_log_prior": programs.Sym()}
@@ -328,7 +351,7 @@ class Machine:
             if isinstance(n, b.lsl.TransientNode):
                 ok = s.value is None and s.outdated == n.outdated
             else:
-                ok = (s.value is n.value or s.value == n.value) and s.outdated == n.outdated
+                ok = (s.value is n.value or programs.freeze(s.value) == programs.freeze(n.value)) and s.outdated == n.outdated
             if not ok:
                 problems.append(("O5-state", f"Model.state[{n.name!r}] disagrees with the node"))
 
